@@ -5,7 +5,7 @@ CONSTANTS
   InitRestated = TRUE
   OriginFromSuper = TRUE
   AllowModifyBusy = FALSE
-  SigCheck = FALSE
+  SigCheck = TRUE
   Parent <- Chain3
   Mode = "shape"
   QSels = {{}}
